@@ -63,6 +63,11 @@ class Eval:
                 return min(x, y) if name == "min" else max(x, y)
             if name == "saturating_sub" and len(args) == 2:
                 return max(self.key(args[0]) - self.key(args[1]), 0)
+            if name == "div_ceil" and len(args) == 2:
+                x, y = self.key(args[0]), self.key(args[1])
+                if y <= 0 or x < 0:
+                    raise ErrPath()
+                return -(-x // y)
             if name in ("Div", "Rem") and len(args) == 2:
                 x, y = self.key(args[0]), self.key(args[1])
                 if y <= 0 or x < 0:
